@@ -168,6 +168,34 @@ func fixedScenarios(f lib.Flags) []Scenario {
 			}
 		}
 	}
+	// subscriptions made WithInclude (a filter that includes every item / every item but one writer's / items by their
+	// payload, so that updates move an item out of and back into the filter): the removal of an item the subscriber
+	// had been shown still ends a PullID and is still told to a Pull subscriber; with backpressure the subscriber
+	// receives exactly the ADD / UPDATE / REMOVE sequence the filter makes of the writes
+	for _, inc := range []string{"all", "id", "val"} {
+		for _, bp := range []bool{true, false} {
+			for wi, ws := range [][]Op{{{Kind: "del", ID: "x"}}, {{Kind: "upd", ID: "x"}, {Kind: "del", ID: "x"}},
+				{{Kind: "upd", ID: "x"}, {Kind: "upd", ID: "x"}, {Kind: "upd", ID: "x"}, {Kind: "del", ID: "x"}},
+				{{Kind: "upd", ID: "x"}, {Kind: "upd", ID: "w1-a"}, {Kind: "upd", ID: "w0-a"}, {Kind: "del", ID: "x"}, {Kind: "del", ID: "w1-a"}, {Kind: "del", ID: "w0-a"}}} {
+				add(Scenario{Class: "include/pullid-removed", Res: "collection", Initial: []string{"x"},
+					Writers: [][]Op{ws},
+					Subs:    []SubSpec{{Kind: "pullid", ID: "x", BP: bp, UpdatesOnly: wi%3 == 2, Include: inc, Consume: "drain", Cancel: "never"}}})
+				add(Scenario{Class: "include/pull-told-of-remove", Res: "collection", Initial: []string{"x"},
+					Writers: [][]Op{ws},
+					Subs:    []SubSpec{{Kind: "pull", BP: bp, UpdatesOnly: wi%3 == 1, Include: inc, Consume: "drain", Cancel: "end"}}})
+			}
+		}
+	}
+	// ... and the consumer that stays away while the item is deleted / re-added behind it, with a filter
+	for i, sc := range res {
+		if sc.Class != "stalled-consumer-churn" || i%3 != 0 {
+			continue
+		}
+		sc.Class = "include/stalled-consumer-churn"
+		sc.Subs = append([]SubSpec(nil), sc.Subs...)
+		sc.Subs[0].Include = []string{"all", "val", "id"}[(i/3)%3]
+		add(sc)
+	}
 	// collections with an id interceptor; subscriber and writers spell the ids differently (respell alternates
 	// canonical / non-canonical spellings): every single-item shape above, and the plain Pull shapes
 	n0 := len(res)
@@ -177,7 +205,7 @@ func fixedScenarios(f lib.Flags) []Scenario {
 				continue
 			}
 			pullid := sc.Subs[0].Kind == "pullid"
-			if strings.HasPrefix(sc.Class, "equivalence/") || sc.Class == "stalled-consumer-churn" {
+			if strings.HasPrefix(sc.Class, "equivalence/") || strings.HasPrefix(sc.Class, "include/") || sc.Class == "stalled-consumer-churn" {
 				// one in five, rotating over the interceptors
 				if (len(res)+len(icpt))%5 == 0 {
 					res = append(res, respell(sc, icpt, nil))
@@ -282,6 +310,7 @@ func pointScenarios(f lib.Flags, points map[string]int) []Scenario {
 // randomScenarios: 0-8 subscribers with mixed options, 0-3 writers, cancels at random instants.
 func randomScenarios(f lib.Flags) []Scenario {
 	r := lib.NewRand(f.Seed*7919 + 10)
+	r2 := lib.NewRand(f.Seed*7919 + 11) // (a source of its own: the scenarios of a seed stay what they were)
 	n := f.N(480, 4000)
 	var res []Scenario
 	for i := 0; i < n; i++ {
@@ -343,6 +372,9 @@ func randomScenarios(f lib.Flags) []Scenario {
 			}
 			if sc.Msg == "dur" && r.Intn(2) == 0 {
 				sp.Mask = []string{"nanos", "seconds"}[r.Intn(2)]
+			}
+			if sc.Res == "collection" && sc.Eq == "" && sp.Mask == "" && r2.Intn(5) == 0 {
+				sp.Include = []string{"all", "id", "val"}[r2.Intn(3)]
 			}
 			switch r.Intn(6) {
 			case 5:
